@@ -12,7 +12,8 @@ META = {
             "area with the tags; multipolygon relation -> area whose polygons follow outer/inner members; other relation -> "
             "relation whose members point at what the elements became; key mapping table). TLC enumerates 576 OSM inputs "
             "(closed/open/clockwise/missing ways, multipolygons with missing or open members, relations whose ids collide "
-            "with way ids), checks ClosedWayTags and MembersPointAtAreas, and prints the expected world; each input is "
+            "with way ids) and 343 files with three relations in sequence, each one of seven shapes (multipolygons of one "
+            "to three polygons with and without inner loops, a route), checks ClosedWayTags and MembersPointAtAreas, and prints the expected world; each input is "
             "ingested with ingest.BuildWorldFromOSM and as a compact index and lookup (tags, geometry, members), "
             "enumeration and search must equal the specification's.",
     "note": "Small scope: 4 nodes, 3 ways, 2 relations, 4 tag keys; relation member roles are not compared. The world "
@@ -24,26 +25,32 @@ META = {
 
 def run(ctx):
     binary = ctx.go_build("vh-world")
-    run = ctx.tlc("MCOSMMap", "MCOSMMap.cfg", timeout=1500, workers=4)
-    exported = run.lines.get("CASE", [])
-    qs = run.lines.get("QUERIES", [None])[0]
-    keys = run.lines.get("KEYS", [None])[0]
-    ids = run.lines.get("IDS", [None])[0]
-    if not exported or qs is None or keys is None or ids is None:
-        raise Inconclusive("OSMMap exported nothing")
-    rng = random.Random(ctx.seed * 31337)
-    if ctx.quick and len(exported) > 300:
-        rng.shuffle(exported)
-        exported = exported[:300]
     cases = []
-    for impl, cores in (("basic", 1), ("basic", 3), ("compact", 2)):
-        # a compact build costs ~3 s of CPU whatever its size
-        subset = exported if impl == "basic" else exported[:ctx.pick(40, 576)]
-        for c in subset:
-            k = dict(c)
-            k.update({"id": len(cases), "impl": impl, "cores": cores, "keys": keys, "ids": ids, "queries": qs,
-                      "sections": ["lookup", "each", "search", "problems", "refs", "rels", "areas", "validity"]})
-            cases.append(k)
+    nexp = 0
+    rng = random.Random(ctx.seed * 31337)
+    # family 1: per-element alternatives (MCOSMMap); family 2: sequences of multipolygon relations of different
+    # shapes in one file (MCOSMMap2): what a relation becomes must not depend on the relations read before it
+    for module, cap_basic, cap_compact in (("MCOSMMap", ctx.pick(300, 576), ctx.pick(40, 576)),
+                                           ("MCOSMMap2", ctx.pick(343, 343), ctx.pick(12, 343))):
+        run = ctx.tlc(module, module + ".cfg", timeout=1500, workers=4)
+        exported = run.lines.get("CASE", [])
+        qs = run.lines.get("QUERIES", [None])[0]
+        keys = run.lines.get("KEYS", [None])[0]
+        ids = run.lines.get("IDS", [None])[0]
+        if not exported or qs is None or keys is None or ids is None:
+            raise Inconclusive("%s exported nothing" % module)
+        nexp += len(exported)
+        rng.shuffle(exported)
+        for impl, cores in (("basic", 1), ("basic", 3), ("compact", 2)):
+            # a compact build costs ~3 s of CPU whatever its size
+            subset = exported[:cap_basic] if impl == "basic" else exported[:cap_compact]
+            if module == "MCOSMMap2" and impl == "basic" and cores == 3 and ctx.quick:
+                subset = subset[:100]
+            for c in subset:
+                k = dict(c)
+                k.update({"id": len(cases), "impl": impl, "cores": cores, "keys": keys, "ids": ids, "queries": qs,
+                          "sections": ["lookup", "each", "search", "problems", "refs", "rels", "areas", "validity"]})
+                cases.append(k)
     ctx.sample({"impl": cases[3]["impl"], "input": cases[3]["input"], "expected_dropped": cases[3]["dropped"]})
     vs = ctx.run_cases(binary, "osm", cases, timeout_ms=120000)
     for v in vs:
@@ -60,7 +67,7 @@ def run(ctx):
         else:
             ctx.fail(v.get("key") or "unknown", "%s: %s" % (c["impl"], v.get("msg", "")), dict(rep, verdict=v))
     ctx.traces_validated = len(cases)
-    ctx.extra_cov["osm_inputs_enumerated_by_tlc"] = len(exported)
+    ctx.extra_cov["osm_inputs_enumerated_by_tlc"] = nexp
     return ctx.finish("model_checking",
                       rule="every OSM input TLC enumerates ingested three ways (basic 1 and 3 cores, compact); "
                            "distinct = (impl, cores, input)",
